@@ -711,18 +711,11 @@ func (u *Unmarshaler) processFieldPrimitiveWithJSONNumber(fieldType reflect.Type
 			return err
 		}
 	case reflect.Float32:
-		fValue, err := v.Float64()
+		// round the literal once, to float32, as strconv and encoding/json do;
+		// going through float64 first rounds twice and can end on the other neighbour.
+		fValue, err := strconv.ParseFloat(v.String(), 32)
 		if err != nil {
 			return err
-		}
-
-		// if the value is a pointer, we need to check overflow with the pointer's value.
-		derefedValue := value
-		for derefedValue.Type().Kind() == reflect.Ptr {
-			derefedValue = derefedValue.Elem()
-		}
-		if derefedValue.CanFloat() && derefedValue.OverflowFloat(fValue) {
-			return fmt.Errorf("parsing %q as float32: value out of range", v.String())
 		}
 
 		target.SetFloat(fValue)
